@@ -280,6 +280,11 @@ def _field_to_iso8583(bit_config, field_value, encoding=DEFAULT_ENCODING):
 
     if length_size > 0:
         field_length = len(field_value)
+        # the length prefix can only count up to 99 (LLVAR) or 999 (LLLVAR)
+        if field_length >= 10 ** length_size:
+            raise Iso8583DataError(
+                f'Field value length {field_length} too long for {bit_config["field_type"]} field '
+                f'({bit_config.get("field_name", "")})')
         output += format(field_length, '0' + str(length_size)).encode(encoding)
 
     if isinstance(field_value, bytes):
